@@ -194,6 +194,9 @@ def _rte_exit(E, outcome, value, env, prefix):
 
 contract(TRY + '.render_try_except', variant='C14',
          params=dict(self=Obj(TRY, lazy=True), md=TD()),
+         # error_type / error_value are bound inside the handler only: gone on every exit
+         ensures={'C14.error_binding_gone_after_handler': "stack_unchanged(md)"},
+         exc_ensures={'C14.error_binding_gone_after_handler': "stack_unchanged(md)"},
          exit_hook=_rte_exit, uses=[RB, TRY + '.find_handler'])
 
 
